@@ -1,5 +1,6 @@
 BASELINE_OFF_CMD = "cd /repo && cargo nextest run --workspace --no-fail-fast --tool-config-file pb:/w/lib/nextest.toml --profile pb --test-threads 8 --offline || cargo test --workspace --no-fail-fast --offline"
-HOOK_COMMITS = []
+HOOK_COMMITS = ["ea7a4b3"]
+FIX_COMMITS = ["526d358","0c4aecb","06fd967","6df6c40","5fc32d2","0eacf0e","e8f2ae1","4719838","864ff30","5a03ef4"]
 NOTES = "Every check = (T) Lean theorems re-checked against constants regenerated from /repo, axioms audited; (K) correspondence of the executable model with the real code; (O) oracle on the implementation for replays. See DESIGN.md."
 _PENDING = "not claimed yet: model/theorems for this property are still being built in this session (see DESIGN.md §11); will be claimed when its check is sound"
 NOT_APPLICABLE = {f"C{n:02d}": _PENDING for n in range(1, 21)}
